@@ -5,6 +5,8 @@ V = os.path.dirname(os.path.dirname(os.path.abspath(__file__)))
 ids = [json.loads(l)['id'] for l in open(os.path.join(V, 'properties.jsonl'))]
 TECH = 'bounded symbolic execution of the real code (clang IR -> ll2c -> CBMC 6.11 / SAT), counterexamples replayed on a g++ ASan build'
 CLAIMED = {
+    'C19': ('3.C19', 'Per entry point of the three C function tables (31 expected-call entries, 16 actual-call parameter entries, 12+12 typed and ...OrDefault getters, returnValue for 15 stored types, support-level operations, data store, comparator/copier adaptors, C failure reporter) recording doubles of MockExpectedCall / MockActualCall / MockSupport prove that the same-named C++ method receives exactly the same name, type and every value bit (all 64-bit argument words and all doubles symbolic) and that getters return exactly the stored value/tag. Whole-scenario equivalence follows only by composition with the C++ engine. Open known finding KF-C19-1 excluded and re-demonstrated.',
+            'per-call equivalence, not scenario exploration; data-store names are literals'),
     'C07': ('3.C07', 'The real MemoryLeakWarningPlugin pre/post actions run around two consecutive tests that allocate through the real global operator new/delete overloads into a real detector; allocation scripts are concrete per obligation (leak, allocate+release, release the earlier test\'s block, both), expected-leak counts, ignore flags and the tests\' own pass/fail outcomes are symbolic: a leak failure is added iff the reference says so, the report lists exactly the test\'s own outstanding blocks, earlier leaks are not charged or offset, and nothing stays in the checking period.',
             'report text builders replaced by a recorder of listed blocks; 4 hash buckets via hook; 3 scripts in the quick tier, 6 in thorough; ~13 GB per obligation'),
     'C10': ('3.C10', 'NOT an interleaving exploration: the solver decides, on the real wrappers and overload table, that in thread-safe mode each of the 9 entry points (new, new debug, new[], new[] debug, delete, delete[], malloc, realloc, free) takes the detector lock exactly once, performs every detector operation with it held and releases it on return, and that the off / default modes never touch the lock (the table is switched consistently). Mutual exclusion => serialisability is assumed, then C04-C06 apply. The misuse-report path leaving with the lock held is the open known finding KF-C10-1, re-demonstrated on every run.',
